@@ -62,8 +62,24 @@ impl Prop for PPipe {
                 args.push(bytes_to_json(a));
             }
         }
-        json!({"stream": bytes_to_json(&r0.out), "pstream": bytes_to_json(&r1.out), "args": args, "nexec": x.execs.len(),
-               "exit_find": r0.exit, "exit_xargs": x.exit})
+        // ... and through xargs -0 -I{} CMD {}: every item is still one unmodified argument (one command each)
+        let mut iargs: Option<Vec<Value>> = None;
+        if input.get("irun").and_then(|b| b.as_bool()).unwrap_or(false) {
+            let mut o2 = XOpts::new(&r0.out);
+            o2.opts = vec!["-0".into(), "-I{}".into()];
+            o2.init = vec![b"{}".to_vec()];
+            let x2 = run_xargs(&self.xsb, &o2);
+            if looks_like_panic(&x2) {
+                return json!({"panic": true, "xargs": true});
+            }
+            iargs = Some(x2.execs.iter().flat_map(|e| e.iter().map(|a| bytes_to_json(a))).collect());
+        }
+        let mut res = json!({"stream": bytes_to_json(&r0.out), "pstream": bytes_to_json(&r1.out), "args": args, "nexec": x.execs.len(),
+               "exit_find": r0.exit, "exit_xargs": x.exit});
+        if let Some(ia) = iargs {
+            res["iargs"] = json!(ia);
+        }
+        res
     }
 
     fn gen(&mut self, rng: &mut Rng, _idx: usize, tier: &str) -> Value {
@@ -158,7 +174,7 @@ impl Prop for PPipe {
             cfg["depth"] = json!(rng.chance(1, 2));
             return json!({"tree": tree, "roots": [{"spell": str_to_json(lspell), "node": k}], "cfg": cfg, "pre": pre});
         }
-        json!({"tree": tree, "roots": roots, "cfg": cfg, "pre": pre})
+        json!({"tree": tree, "roots": roots, "cfg": cfg, "pre": pre, "irun": rng.chance(1, 3)})
     }
 
     fn same(&self, exp: &Value, obs: &Value) -> bool {
